@@ -794,23 +794,27 @@ def ic_stage(out, name, prop, kinds, alpha, maxops, ghost, extend=True, **kw):
 
 
 def stride_proof_stage(out):
-    """TLAPS: the unbounded step theorems about Stride::push (proofs/StrideProof.tla EXTENDS the very StrideCore.tla
-    that IndexContainers.tla extends).  Supplementary to the bounded TLC result; a failure means the proof and the
-    specification have drifted apart (tool error, not a violation of the code)."""
+    """TLAPS: the unbounded step theorems about Stride::push, IndexList and IndexOptimized (proofs/*.tla EXTEND the very
+    StrideCore.tla / IndexCore.tla that IndexContainers.tla extends).  Supplementary to the bounded TLC result; a
+    failure means the proofs and the specification have drifted apart (tool error, not a violation of the code)."""
     wd = os.path.join(WORK, out.prop, "tlaps")
     shutil.rmtree(wd, ignore_errors=True)
     os.makedirs(wd)
-    shutil.copy(os.path.join(SPEC, "StrideCore.tla"), wd)
-    shutil.copy(os.path.join(SPEC, "proofs", "StrideProof.tla"), wd)
-    t0 = time.time()
-    rc, o = sh(["tlapm", "--threads", "8", "StrideProof.tla"], cwd=wd, timeout=1500)
-    m = re.search(r"All (\d+) obligations proved", o)
-    if rc != 0 or not m:
-        log(o[-1500:])
-        raise ToolError("tlapm does not prove proofs/StrideProof.tla against spec/StrideCore.tla")
-    out.stages.append({"stage": "stride-step-proof", "module": "proofs/StrideProof.tla", "tool": "tlapm (TLAPS)",
-                       "obligations_proved": int(m.group(1)), "seconds": round(time.time() - t0, 1),
-                       "theorems": ["InitWF", "RejectIsNoop", "PushKeepsWF", "AcceptAppends"]})
+    for f in ("StrideCore.tla", "IndexCore.tla"):
+        shutil.copy(os.path.join(SPEC, f), wd)
+    for f in ("StrideProof.tla", "IndexProof.tla"):
+        shutil.copy(os.path.join(SPEC, "proofs", f), wd)
+    for mod, thms in (("StrideProof", ["InitWF", "RejectIsNoop", "PushKeepsWF", "AcceptAppends"]),
+                      ("IndexProof", ["ListPushWF", "ListPushLen", "ListPushIndex", "ListPushCost", "OptPushCost", "OptPushIndex",
+                                      "OptStrideFrozen", "VecPush"])):
+        t0 = time.time()
+        rc, o = sh(["tlapm", "--threads", "8", mod + ".tla"], cwd=wd, timeout=1500)
+        m = re.search(r"All (\d+) obligations proved", o)
+        if rc != 0 or not m:
+            log(o[-1500:])
+            raise ToolError("tlapm does not prove proofs/%s.tla against the specification modules" % mod)
+        out.stages.append({"stage": "step-proofs-" + mod, "module": "proofs/%s.tla" % mod, "tool": "tlapm (TLAPS)",
+                           "obligations_proved": int(m.group(1)), "seconds": round(time.time() - t0, 1), "theorems": thms})
     shutil.rmtree(wd, ignore_errors=True)
 
 
@@ -890,6 +894,7 @@ def run_property(prop, tier, seed):
         ic_stage(out, "small-deep", prop, ["opt", "list"], "small", 6 if q else 8, 0, extend=False)
         if not q:
             ic_stage(out, "big-deep", prop, ["opt", "list"], "big", 6, 0, extend=False)
+            stride_proof_stage(out)
         stack_stage(out, "flatstack-dense", prop, stack_names(lambda e: e["ic"] == "opt"), 4 if q else 5, 1, 4 if q else 5,
                     ["copy", "extend", "from_iter", "clear", "merge_capacity", "clone", "serde", "reserve"])
         ic_walk_stage(out, q, seed, lambda e: e["why"] == "heap-bytes-differ-from-documented-cost")
